@@ -8,7 +8,7 @@ level `cfg` — the window a fresh `Server`/`Client` connection carries for `Con
   case     : `lvl=cfg role=server|client cfg=<int> seqs=...`
   observed : as above
 level `rx`  — the post-handshake receive paths of a real connection pair:
-  case     : `lvl=rx path=readfrom|read suite=gcm|cbc role=server|client cfg=<int> sent=<k> script=<item>,...`
+  case     : `lvl=rx path=readfrom|read suite=gcm|cbc role=server|client cfg=<int> sent=<k> [repoch=<n>] script=<item>,...`
              items (see harness/cmd/c16/rx.go): `g<i>` record i as sent, `q` the close_notify record,
              `f<i>` `c<i>` bit flips, `s<i>.<n>` / `e<i>.<n>` / `v<i>` rewritten sequence number /
              epoch / version, `t<i>` truncated, `o<i>` oversize length, `z` short junk,
@@ -152,7 +152,10 @@ def judgeRx (ct : List String) (o : String) : Option Verdict := do
   let k ← kvNat ct "sent"
   let script ← kv ct "script"
   let items ← if script == "-" then some [] else (script.splitOn ",").mapM (parseItem k)
-  let st0 := DtlcpRx.afterHandshake P cfg
+  -- `repoch=<n>`: a hook moved the receiver's read epoch to n before the script (exercises the
+  -- two epoch branches with authentic records); the property is only judged without it
+  let repoch := (kvNat ct "repoch").getD 1
+  let st0 := { DtlcpRx.afterHandshake P cfg with readEpoch := repoch }
   let (st, steps) := runRx path st0 (items.map (·.1))
   let inerr := match st.err with
     | none => "none"
@@ -163,6 +166,7 @@ def judgeRx (ct : List String) (o : String) : Option Verdict := do
   -- spec on the observation
   let ot := tokens o
   let spec : Option (String × String) :=
+    if repoch != 1 then none else
     match kv ot "init", (kv ot "steps").bind parseSteps with
     | some ini, some obs =>
       if obs.length != items.length then some ("shape", "number of results differs from the number of deliveries")
@@ -173,7 +177,7 @@ def judgeRx (ct : List String) (o : String) : Option Verdict := do
     | _, _ => some ("shape", "unparseable observation")
   let forgedN := (items.filter fun x => x.2 == .forged).length
   pure { model := model, spec := spec, trivial := items.length < 2,
-         note := if forgedN == 0 then "rx-no-forgery" else "" }
+         note := if repoch != 1 then "rx-epoch-hook" else if forgedN == 0 then "rx-no-forgery" else "" }
 
 def judge (c o : String) : Option Verdict := do
   let ct := tokens c
